@@ -2,12 +2,12 @@ SPECIFICATION Spec
 CONSTANTS
   Files = {1}
   Texts = {3}
-  Classes = {"io", "simple", "proto", "stop", "remote"}
-  MaxInject = 1
+  Classes = {"io", "stop", "remote"}
+  MaxInject = 0
   MaxNoise = 0
   WithBg = FALSE
   WithDead = {}
-  AsCoded = FALSE
+  AsCoded = TRUE
   Mutant = "none"
 INVARIANTS TypeOK ToldAtMostOnce ToldUnlessPeerKnows KindMatchesTraceback ShownIsSent OnlyCreated TermResetOnce DrainBounded
 
